@@ -372,3 +372,7 @@ Definition hview (s : st) (h : Z) : option (list Z * Z * Z) :=
   | Some (HMem data off size obj) => Some (zskipn off data, size, obj)
   | Some (HFile i off size obj) => Some (zskipn off (inode_bytes s i), size, obj)
   end.
+
+(* total number of bytes a client can actually get back *)
+Definition sum_data (r : list (Z * (list Z * Z * Z))) : Z :=
+  fold_right (fun x acc => zlen (fst (fst (snd x))) + acc) 0 r.
